@@ -2,7 +2,7 @@
 From Coq Require Import List NArith Bool Lia.
 Import ListNotations.
 From Snaps Require Import Base.Bytes Base.Lines Model.Json Model.JsonSpec Proofs.JsonP Proofs.MaskP.
-From Snaps Require Import Model.Matchers Proofs.MatchersP.
+From Snaps Require Import Model.Matchers Proofs.MatchersP Proofs.JsonInjP.
 
 (* two inputs that differ only at a masked path (v2 is v with another value y there) become
    the same document once the matcher has put its placeholder x there *)
@@ -17,13 +17,28 @@ Theorem C16_unmasked : forall p q v1 v2 x m1 m2,
 Proof. exact mask_keeps_difference. Qed.
 Print Assumptions C16_unmasked.
 
-(* and different documents store different text (the stored text parses back to the document) *)
+(* the stored text parses back to the document (members sorted when sorting is on) ... *)
 Theorem C16_store_injective : forall (width : nat) (indent : bytes) (sk : bool) s (v : jv) (fuel : nat),
   parse (S (length s)) s = Some v -> ws_bytes indent ->
   length (snapshot_json width indent sk s) <= fuel ->
   parse fuel (snapshot_json width indent sk s) = Some (sort_if sk v).
 Proof. exact snapshot_lossless. Qed.
 Print Assumptions C16_store_injective.
+
+(* ... hence storing is injective on JSON VALUES: two valid documents with the same stored text denote the same value, and two
+   that denote different values (up to member order when keys are sorted) store different texts *)
+Theorem C16_same_text_same_value : forall (width : nat) (indent : bytes) (sk : bool) (s1 s2 : bytes) (v1 v2 : jv),
+  parse (S (List.length s1)) s1 = Some v1 -> parse (S (List.length s2)) s2 = Some v2 -> ws_bytes indent ->
+  snapshot_json width indent sk s1 = snapshot_json width indent sk s2 ->
+  sort_if sk v1 = sort_if sk v2.
+Proof. exact JsonInjP.store_injective. Qed.
+Theorem C16_different_values_different_text : forall (width : nat) (indent : bytes) (sk : bool) (s1 s2 : bytes) (v1 v2 : jv),
+  parse (S (List.length s1)) s1 = Some v1 -> parse (S (List.length s2)) s2 = Some v2 -> ws_bytes indent ->
+  sort_if sk v1 <> sort_if sk v2 ->
+  snapshot_json width indent sk s1 <> snapshot_json width indent sk s2.
+Proof. exact JsonInjP.different_values_different_text. Qed.
+Print Assumptions C16_same_text_same_value.
+Print Assumptions C16_different_values_different_text.
 
 (* ---------- whole matcher lists (Model/Matchers.v) ---------- *)
 
@@ -60,3 +75,33 @@ Print Assumptions C16_masking_idempotent.
 Example C16_masked_example : exists v2,
   parse (S (length exdoc2)) exdoc2 = Some v2 /\ masked_variant (covered_by ex_ms) exv v2.
 Proof. exact ex_masked_variant. Qed.
+
+(* non-vacuity: every theorem of this file that has hypotheses has a concrete, non-trivial instance meeting ALL of them
+   (lemmas <Theorem>_witness / <Theorem>_applied in Proofs/WitnessesP.v); a representative one is restated here *)
+From Snaps Require Import Proofs.WitnessesP.
+Example C16_witnesses :
+  parse w16_n1 w16_doc1 = Some w16_v1 /\ parse w16_n2 w16_doc2 = Some w16_v2 /\
+  pairwise_disj (all_paths w16_ms) = true /\ masked_variant (covered_by w16_ms) w16_v1 w16_v2 /\
+  Forall stable_matcher w16_ms /\ snd (apply_matchers w16_ms w16_v1) = nil /\ w16_v1 <> w16_v2 /\
+  (forall p, In p (all_paths w16_ms) -> pdisj p w16_q = true) /\ Json.get w16_v1 w16_q <> Json.get w16_v3 w16_q /\
+  Json.set w16_v1 w16_p w16_y = Some w16_vy /\ JsonSpec.disjoint_paths w16_p w16_q = true /\
+  Json.set w16_v1 w16_p w16_x = Some w16_m1 /\ Json.set w16_v3 w16_p w16_x = Some w16_m2.
+Proof. exact C16_witnesses_all. Qed.
+
+(* non-vacuity of C16_same_text_same_value / C16_different_values_different_text: two spellings of one object (members in
+   another order, other whitespace) meet every hypothesis with sorting on and store the same text although the parsed values differ;
+   two objects that differ in a member's value store different texts *)
+From Coq Require Import String.
+Example C16_injectivity_example :
+  let s1 := B "{""a"":1,""b"":[true,null]}"%string in
+  let s2 := B "{ ""b"" : [ true , null ] , ""a"" : 1 }"%string in
+  let s3 := B "{""a"":2,""b"":[true,null]}"%string in
+  let p1 := parse (S (List.length s1)) s1 in
+  let p2 := parse (S (List.length s2)) s2 in
+  let p3 := parse (S (List.length s3)) s3 in
+  p1 <> None /\ p2 <> None /\ p3 <> None /\
+  snapshot_json 0 [32%N] true s1 = snapshot_json 0 [32%N] true s2 /\ p1 <> p2 /\
+  option_map (sort_if true) p1 = option_map (sort_if true) p2 /\
+  option_map (sort_if true) p1 <> option_map (sort_if true) p3 /\
+  snapshot_json 0 [32%N] true s1 <> snapshot_json 0 [32%N] true s3.
+Proof. vm_compute. repeat split; try reflexivity; discriminate. Qed.
